@@ -955,7 +955,7 @@ CHECKS = {
     "C08": {
         "bin": "c08",
         "level": "fault_enumeration",
-        "quick": {"shards": 19, "budget_s": 45, "min_evaluations": 150},
+        "quick": {"shards": 19, "budget_s": 35, "min_evaluations": 150},
         "thorough": {"shards": 19, "budget_s": 1500, "min_evaluations": 6000},
         "rule": (
             "19 (operation kind x state class) pairs on TA -> p -> c: ROA "
